@@ -241,7 +241,16 @@ class TaintEngine(object):
         if key in self.summaries:
             return self.summaries[key]
         if key in self._inprogress:
-            return Summary()
+            # a recursive call: until the summary is known, what comes back
+            # carries what went in (a cleaner that walks a nested
+            # structure hands back its argument, cleaned, in its order)
+            s = Summary()
+            n_ = len(fi.params)
+            s.ret = AV('unk',
+                       {('P', i, 'ord') for i in range(n_)},
+                       {('P', i, 'val') for i in range(n_)},
+                       {('P', i, 'kord') for i in range(n_)})
+            return s
         self._inprogress.add(key)
         s = self._analyse(fi)
         self._inprogress.discard(key)
